@@ -6,6 +6,7 @@ computed; `pos` the index of the computed field. Spec side: `Schc.Spec.onesSum` 
 arithmetic), `Schc.Spec.crcBitwise` (RFC 9260 appendix A, bit by bit).
 -/
 import Schc.Proofs.Checksum
+import Schc.Proofs.SortUnique
 import Schc.Py.Core
 
 namespace Schc
@@ -142,5 +143,36 @@ theorem C09_order (l : List ComputeEntry) (h : List.Pairwise (fun a b => ¬ comp
 example :
     let hdr : ABuf := ⟨Bits.ofNat 160 0x45000020b979400040110000c0a80001c0a80002, .left⟩
     Spec.inetChecksum ((hdr.chunks 16 false).map ABuf.value) = 0 := by decide +kernel
+
+/-- The order in which the compute fields are regenerated does not depend on the sorting algorithm. Where
+    `compute_function_sort` orders the rule's compute entries consistently (`Rule.orderOk`: one direction per pair, no
+    cycle — what the model driver tests before it answers), EVERY permutation of the entries that is sorted for the
+    comparator is the list the model's insertion sort returns: `list.sort` is only assumed to sort. -/
+theorem C09_compute_order_unique (r : Rule) (h : r.orderOk = true) (p : List ComputeEntry)
+    (hp : p.Perm (computeEntries r.fields 0)) (hs : p.Pairwise entryLt) : p = sortEntries (computeEntries r.fields 0) :=
+  sort_unique _ (orderedB_sound _ (by rw [← entriesOf_eq]; exact h)) (computeEntries_nodup _ _) p hp hs
+
+/-- … and the model's own result is such a permutation -/
+theorem C09_compute_order_sorted (r : Rule) (h : r.orderOk = true) :
+    (sortEntries (computeEntries r.fields 0)).Perm (computeEntries r.fields 0) ∧
+    (sortEntries (computeEntries r.fields 0)).Pairwise entryLt :=
+  ⟨sortEntries_perm _, sortEntries_sorted _ (orderedB_sound _ (by rw [← entriesOf_eq]; exact h)) (computeEntries_nodup _ _)⟩
+
+/-- the driver's test covers every call: whatever `direction=` is passed, the rule `decompress` works on passes `orderOk` -/
+theorem C09_order_test_covers_directions (r : Rule) (d : Option Dir) (h : r.orderOkAll = true) : (restrictO r d).orderOk = true := by
+  simp only [Rule.orderOkAll, Bool.and_eq_true] at h
+  match d with
+  | none => exact h.1.1.1
+  | some .up => exact h.1.1.2
+  | some .dw => exact h.1.2
+  | some .bi => exact h.2
+
+/-- non-vacuity, both ways: lengths and checksums in protocol order are ordered consistently; a header checksum BEFORE a UDP
+    length BEFORE the total length the checksum depends on is a cycle (each precedes the next), which the test rejects -/
+example :
+    let co (id : String) : RuleField := ⟨id, 16, 0, .bi, .buf ⟨[], .left⟩, .ignore, .compute⟩
+    (Rule.orderOk ⟨⟨[true], .left⟩, .compression, [co "IPv4:Total Length", co "IPv4:Header Checksum", co "UDP:Length", co "UDP:Checksum"]⟩ = true) ∧
+    (Rule.orderOk ⟨⟨[true], .left⟩, .compression, [co "IPv4:Header Checksum", co "UDP:Length", co "IPv4:Total Length"]⟩ = false) := by
+  decide +kernel
 
 end Schc
